@@ -39,6 +39,12 @@ func main() {
 			seed, _ = strconv.ParseInt(s, 10, 64)
 		}
 		rc := &props.RunCtx{ID: id, Tier: *tier, Seed: seed, Workers: *workers, Start: time.Now(), Level: c.Level}
+		budget := 6 * time.Minute
+		if *tier == "thorough" {
+			budget = 45 * time.Minute
+		}
+		rc.Deadline = rc.Start.Add(budget)
+		props.Active = rc
 		c.Run(rc)
 		os.Exit(rc.Finish())
 	case "replay":
